@@ -69,6 +69,34 @@ Theorem C05_xml_desc_normal : forall text d,
 Proof. exact xml_desc_normal. Qed.
 Print Assumptions C05_xml_desc_normal.
 
+(* NON-TAG ENTRIES.  A line of the unit class / unit / unit modifier / value class / attribute / property
+   sections (Schema2Wiki._write_entry, depth 1 or 2 for units) round-trips for every name that is ONE OPAQUE
+   TERM: ename_ok asks only for non-empty, no outer blanks, none of [ ] { } LF < ' -- a slash ('m/s', 'km/h'),
+   '$', '^', inner blanks or a final '#', admitted e.g. through the entry's own allowedCharacter attribute, are
+   ordinary characters of the name.  Both versions of the reader. *)
+Theorem C05_wiki_entry_line_roundtrip :
+  forall (fixed : bool) (disallowed : str -> bool) (lvl : nat) (n : str) (a : attrs) (d : option str) (line : str),
+  ename_ok n = true -> desc_ok d = true ->
+  attr_ok a = true -> wiki_text_ok (format_tag_attributes disallowed a) = true ->
+  write_entry_line disallowed n (S lvl) true a d = Some line ->
+  row_free_of_reserved fixed n line = true ->
+  read_entry_line fixed line
+  = Ok (Some (mkParsed false (S lvl) n (filter (fun kv => negb (disallowed (fst kv))) a) d)).
+Proof. exact wiki_entry_line_roundtrip. Qed.
+Print Assumptions C05_wiki_entry_line_roundtrip.
+
+(* The XML writer is modelled at the level of the name element only: for a non-tag entry its text is the whole
+   name (tied to Schema2XML._write_entry/_write_tag_entry by the correspondence kind 'xmlname' and by the
+   independent ElementTree listing).  Writing 'the last term' for every entry is not the same thing. *)
+Theorem C05_xml_name_text_entry : forall name : str, xml_name_text false name = name.
+Proof. exact xml_name_text_entry. Qed.
+Print Assumptions C05_xml_name_text_entry.
+
+Theorem C05_xml_name_last_term_variant_refuted :
+  exists name, ename_ok name = true /\ last_component name <> name.
+Proof. exact xml_name_text_last_term_refuted. Qed.
+Print Assumptions C05_xml_name_last_term_variant_refuted.
+
 (* LINE SPLITTING.  All per-line statements model the reader's line splitting (SchemaLoaderWiki._open_file:
    readlines() / split(LF)) as splitting at U+000A only -- NOT at U+0085, U+2028, U+2029, VT, FF, FS, GS, RS,
    which are ordinary characters of the text class.  Under that model: the lines the reader sees are exactly
@@ -224,6 +252,24 @@ Theorem C05_merged_levels : forall ws m tags w,
 Proof. exact merged_levels. Qed.
 Print Assumptions C05_merged_levels.
 
+(* THE TREE.  The MediaWiki reader rebuilds the long name of every tag from the order and level of the lines
+   (rebuild_names <- SchemaLoaderWiki._read_schema).  If a merged save lists the tags parents-first -- every tag
+   directly behind its parent or a node of its parent's subtree -- every long name comes back intact; the levels
+   are the depths (C05_merged_levels) and the order is that of the entry list (C05_merged_emits_all_once).
+   Whether the entry list IS parents-first is a property of HedSchemaTagSection._finalize_section, not modelled:
+   it is tested end-to-end, and it is FALSE of the code before fix-F7 for a library node rooted in a top-level tree
+   that does not allow extensions (finding C05-F7; the refuted statement below is its shape). *)
+Theorem C05_wiki_names_rebuilt : forall names : list tname,
+  parents_first [] names -> rebuild_names [] (map wiki_tag_line names) = Ok names.
+Proof. exact wiki_names_rebuilt. Qed.
+Print Assumptions C05_wiki_names_rebuilt.
+
+Theorem C05_wiki_names_wrong_parent_refuted :
+  exists names, rebuild_names [] (map wiki_tag_line names) <> Ok names
+                /\ exists wrong, rebuild_names [] (map wiki_tag_line names) = Ok wrong.
+Proof. exact wiki_names_wrong_parent. Qed.
+Print Assumptions C05_wiki_names_wrong_parent_refuted.
+
 (* A schema merged from several libraries refuses to save, in every mode and whatever it holds;
    a single library never refuses. *)
 Theorem C05_multi_library_refuses : forall library ws m tags ucs secs,
@@ -231,6 +277,22 @@ Theorem C05_multi_library_refuses : forall library ws m tags ucs secs,
   process_schema library ws m tags ucs secs = Exn HedFileError.
 Proof. exact multi_library_refuses. Qed.
 Print Assumptions C05_multi_library_refuses.
+
+(* ... and EVERY way of building a schema from two or more library files yields such a comma: the loader
+   appends ',' + name for each further file, also when the files belong to the same library (testlib_2.0.0 +
+   testlib_3.0.0), so the refusal holds for all names, any number of files, every mode and content.  Tied to
+   the code by the harness clause multi-library-refuses over all bundled legal merges and construction paths. *)
+Theorem C05_merged_libraries_refuse : forall first m more ws mode tags ucs secs,
+  process_schema (merged_library false first (m :: more)) ws mode tags ucs secs = Exn HedFileError.
+Proof. exact merged_libraries_refuse. Qed.
+Print Assumptions C05_merged_libraries_refuse.
+
+(* not the code: a header that does not repeat a library name would let two files of one library save *)
+Theorem C05_merged_dedupe_variant_refuted :
+  exists l ws mode tags ucs secs,
+    is_ok (process_schema (merged_library true l [l]) ws mode tags ucs secs) = true.
+Proof. exact merged_dedupe_saves. Qed.
+Print Assumptions C05_merged_dedupe_variant_refuted.
 
 Theorem C05_single_library_saves : forall library ws m tags ucs secs,
   memb ch_comma library = false ->
